@@ -586,9 +586,27 @@ impl<K: KeyT, V: ValT> MapWorld<K, V> {
             m.capacity() - m.len()
         };
         let present = self.slots[si].model.pos(kid);
+        // insert_unique_unchecked: "the key is not in the map" is the caller's obligation
+        let unique = op.c == 1 && present.is_none() && self.ctx.functional() && self.ctx.cfg.eq_mode == crate::state::EqMode::Lawful;
+        let mut wrong_ref = None;
+        let wr = &mut wrong_ref;
         let m = self.slots[si].map.as_mut().unwrap();
-        let out = self.ctx.call(op, || m.insert(k, v));
+        let out = if unique {
+            sim().probe(Probe::InsertUniqueUnchecked);
+            self.ctx.call(op, || {
+                let (kr, vr) = unsafe { m.insert_unique_unchecked(k, v) };
+                if (kr.id(), kr.serial(), vr.val(), vr.serial()) != (kid, ks, val, vs) {
+                    *wr = Some((kr.id(), kr.serial(), vr.val(), vr.serial()));
+                }
+                None
+            })
+        } else {
+            self.ctx.call(op, || m.insert(k, v))
+        };
         let Some(ret) = self.settle(out, si, fc)? else { return Ok(()) };
+        if let Some(w) = wrong_ref {
+            vio!(self, "ret/Insert", "insert_unique_unchecked({kid}) returned references to {:?}, not to the inserted pair", w);
+        }
         let got = ret.as_ref().map(|o| (o.val(), o.serial()));
         let ret_ok = ret.as_ref().map_or(true, |o| o.intact());
         drop(ret);
@@ -674,6 +692,18 @@ impl<K: KeyT, V: ValT> MapWorld<K, V> {
         // result: (found, key serial or 0, val, val serial)
         let out = match op.k {
             Kd::Get => self.ctx.call(op, || m.get(&probe).map(|v| (0, v.val(), v.serial(), v.intact()))),
+            // `map[&key]`: panics exactly when the key is absent
+            Kd::GetView if op.c == 1 && op.f.is_none() => {
+                sim().probe(Probe::IndexOp);
+                let mr = &*m;
+                self.ctx.call(op, || {
+                    std::panic::catch_unwind(std::panic::AssertUnwindSafe(|| {
+                        let v = &mr[&view];
+                        (0, v.val(), v.serial(), v.intact())
+                    }))
+                    .ok()
+                })
+            }
             Kd::GetView => self.ctx.call(op, || m.get(&view).map(|v| (0, v.val(), v.serial(), v.intact()))),
             Kd::ContainsKey => self.ctx.call(op, || if m.contains_key(&probe) { Some((0, 0, 0, true)) } else { None }),
             Kd::GetKeyValue => self.ctx.call(op, || m.get_key_value(&view).map(|(k, v)| (k.serial(), v.val(), v.serial(), k.intact() && v.intact()))),
@@ -1049,6 +1079,9 @@ impl<K: KeyT, V: ValT> MapWorld<K, V> {
         let mut fc = self.fctx(si, op);
         fc.toggles = toggle;
         let mut visited: Vec<(u32, u32)> = Vec::new();
+        let n0 = self.slots[si].model.e.len();
+        let mut hint_errs: Vec<String> = Vec::new();
+        let er = &mut hint_errs;
         let m = self.slots[si].map.as_mut().unwrap();
         let vis = &mut visited;
         let out = self.ctx.call(op, || {
@@ -1060,15 +1093,8 @@ impl<K: KeyT, V: ValT> MapWorld<K, V> {
                 }
                 yes.contains(&k.id())
             });
-            let mut got: Vec<(K, V)> = Vec::new();
-            let mut n = 0;
-            while steps < 0 || n < steps {
-                match it.next() {
-                    Some(kv) => got.push(kv),
-                    None => break,
-                }
-                n += 1;
-            }
+            let (got, errs) = crate::iterdrv::drive_extract(&mut it, steps, n0);
+            *er = errs;
             if forget {
                 std::mem::forget(it);
             } else {
@@ -1095,6 +1121,9 @@ impl<K: KeyT, V: ValT> MapWorld<K, V> {
             let act = self.actual(si);
             self.slots[si].model.e = act.into_iter().map(|x| x.0).collect();
             return Ok(());
+        }
+        if let Some(e) = hint_errs.into_iter().next() {
+            vio!(self, "iterlen/ExtractIf", "{e}");
         }
         // visited: no element twice, all from the map
         let mut vs = visited.clone();
@@ -1134,6 +1163,8 @@ impl<K: KeyT, V: ValT> MapWorld<K, V> {
         // a = next() calls (-1 exhaust); b: 0 drop, 1 forget
         let steps = op.a;
         let forget = op.b == 1;
+        // b == 2: after the next() calls the rest is consumed through fold()
+        let fold = op.b == 2;
         let fc = self.fctx(si, op);
         let cap0 = self.map(si).capacity();
         let size0 = self.map(si).allocation_size();
@@ -1159,7 +1190,13 @@ impl<K: KeyT, V: ValT> MapWorld<K, V> {
                 }
                 n += 1;
             }
-            if forget {
+            if fold {
+                sim().probe(Probe::DrainFold);
+                got = it.fold(got, |mut acc, x| {
+                    acc.push(x);
+                    acc
+                });
+            } else if forget {
                 std::mem::forget(it);
             } else {
                 drop(it);
@@ -1170,7 +1207,7 @@ impl<K: KeyT, V: ValT> MapWorld<K, V> {
             let mut s = sim();
             if forget {
                 s.probe(Probe::LeakDrain);
-            } else if steps >= 0 {
+            } else if steps >= 0 && !fold {
                 s.probe(Probe::EarlyDropDrain);
             }
         }
@@ -1210,7 +1247,7 @@ impl<K: KeyT, V: ValT> MapWorld<K, V> {
         }
         g.sort();
         let ms = model.sorted();
-        let complete = steps < 0 || steps as usize >= n0;
+        let complete = fold || steps < 0 || steps as usize >= n0;
         if complete && g != ms {
             vio!(self, "drain/yield", "a fully consumed drain yielded {} entries, the map held {}", g.len(), ms.len());
         }
